@@ -220,6 +220,22 @@ fn group_kill_case(rng: &mut Rng, seed: u64) -> Case {
     c
 }
 
+/// `redo ... 2>&1 | head`: the reader of the first invocation's output goes
+/// away while its jobs run; what it writes afterwards meets a closed pipe.
+fn reader_gone_case(rng: &mut Rng, seed: u64) -> Case {
+    let mut c = slow_pair_case(rng, seed, false);
+    c.scenario.family = "c06-reader-gone".into();
+    let at = rng.range(40, 600);
+    if let Some(Step::Cmds(cmds)) = c.scenario.history.last_mut() {
+        cmds[0].reader_gone_at = Some(at);
+        // a wider first command keeps writing "redo  <target>" lines
+        if cmds[0].argv[0] == "redo" && rng.chance(1, 2) && !cmds[0].argv.iter().any(|a| a == "--no-log") {
+            cmds[0].argv.insert(1, "--no-log".into());
+        }
+    }
+    c
+}
+
 fn slow_pair_case(rng: &mut Rng, seed: u64, with_error: bool) -> Case {
     let n = rng.range(1, 3) as usize;
     let mut rules: Vec<(String, Rule)> = Vec::new();
@@ -297,7 +313,8 @@ impl Property for C06 {
          optionally with one redo process, or the process group of one command, killed mid-build; every eighth scenario: an invocation that \
          ends with an internal error (a name below a regular file) while its jobs run, and a later one \
          asking for the same targets; every eighth: the same two invocations without the error, the \
-         process group of one of them killed while its jobs run; \
+         process group of one of them killed while its jobs run; every eighth: the reader of the first \
+         invocation's output pipe goes away while its jobs run (`redo ... | head`); \
          oracle: do-begin..do-end/death intervals of one target never overlap across all processes, and \
          the builder's unlock of the target's lock byte comes after it reaped the script and wrote to the \
          state database; non-trivial = >=1 preemption and >=1 script; distinct = (scenario, preemption \
@@ -309,6 +326,9 @@ impl Property for C06 {
         }
         if index % 8 == 3 {
             return group_kill_case(rng, seed);
+        }
+        if index % 8 == 5 {
+            return reader_gone_case(rng, seed);
         }
         let mut p = GraphParams::small(rng);
         p.n_targets = rng.range(2, 6) as usize;
@@ -415,6 +435,9 @@ impl Property for C06 {
                 if k.starts_with("kill-tree") {
                     *m.entry("process_group_killed_mid_build".to_string()).or_insert(0) += 1;
                 }
+            }
+            if g.fault_counts.get("output-reader-gone").copied().unwrap_or(0) > 0 {
+                *m.entry("output_reader_gone".to_string()).or_insert(0) += 1;
             }
             if g.results.iter().any(|r| r.stderr.contains("Not a directory")) {
                 *m.entry("internal_error_exit".to_string()).or_insert(0) += 1;
